@@ -43,6 +43,7 @@ fn alphabet() -> Vec<Op> {
 struct Tally {
     crash_states: u64,
     recoveries: u64,
+    nontrivial: u64,
     nested: u64,
     dedup_hits: u64,
     remedy_used: u64,
@@ -76,6 +77,9 @@ async fn check_crash_state(
         return;
     }
     t.recoveries += 1;
+    if !exp.images.is_empty() {
+        t.nontrivial += 1;
+    }
     let mut push = |t: &mut Tally, sig: String, msg: String| {
         t.problems.push((sig, msg, ctx.clone()));
     };
@@ -315,6 +319,7 @@ fn main() {
                 run.add("workloads", 1);
                 run.add("crash_states", t.crash_states);
                 run.add("evaluations", t.recoveries);
+                run.add("nontrivial_states", t.nontrivial);
                 run.add("nested_crash_states", t.nested);
                 run.add("dedup_hits", t.dedup_hits);
                 run.add("remedy_used", t.remedy_used);
@@ -368,6 +373,7 @@ fn main() {
                 run.add("bulk_start_workloads", 1);
                 run.add("crash_states", t.crash_states);
                 run.add("evaluations", t.recoveries);
+                run.add("nontrivial_states", t.nontrivial);
                 run.add("nested_crash_states", t.nested);
                 run.add("dedup_hits", t.dedup_hits);
                 run.add("in_flight_crash_states", t.in_flight_states);
@@ -384,9 +390,11 @@ fn main() {
         }
     }
     let distinct = shared.seen.lock().len() as u64;
-    run.set("distinct_nontrivial", json!(distinct));
+    run.set("distinct_crash_states_recovered", json!(distinct));
+    let nt = run.get("nontrivial_states");
+    run.set("distinct_nontrivial", json!(nt));
     run.set("completed", json!(completed));
-    run.rule("workloads = every op sequence to the depth bound over the alphabet {add, rejected add, update, remove, flush, save_extension, compact, clean reopen, index create/remove via reopen}; for each: every journal prefix k (crash after the k-th backend mutation) -> recover -> acknowledgement model + full index comparison + continuation (add, flush, clean reopen) -> every strict prefix of the recovery's own mutations -> recover again; plus one ambiguous failure (write landed, error returned) at every mutation of every workload up to the stated depth; distinct = distinct (store content, expectation, backend) crash states actually recovered");
+    run.rule("workloads = every op sequence to the depth bound over the alphabet {add, rejected add, update, remove, flush, save_extension, compact, clean reopen, index create/remove via reopen}; for each: every journal prefix k (crash after the k-th backend mutation) -> recover -> acknowledgement model + full index comparison + continuation (add, flush, clean reopen) -> every strict prefix of the recovery's own mutations -> recover again; plus one ambiguous failure (write landed, error returned) at every mutation of every workload up to the stated depth; recoveries are deduplicated by (store content, expectation, backend), so every evaluation is a distinct crash state; non-trivial = the acknowledgement model holds at least one document (i.e. not a crash inside collection creation)");
     run.assume("crash model: each backend mutation is atomic, a sequence stops anywhere (the repo's own FaultStore model); concurrent sub-writes of one flush are explored in the one order the deterministic executor produces");
     run.finish();
 }
